@@ -1102,6 +1102,151 @@ func c17ReleaseSets(f *flow.Func, r *c17LLRoles, obj types.Object) []ast.Expr {
 	return out
 }
 
+// c17GuardedRelease: e is a call of a same-package function without parameters that, on every call,
+// creates a fresh sync.Once and returns `func() { once.Do(<release of the listener>) }`: a release value
+// that is safe to call more than once (the once-guard lives in the closure instead of the wrapper).
+func c17GuardedRelease(f *flow.Func, r *c17LLRoles, e ast.Expr) bool {
+	call, ok := ast.Unparen(e).(*ast.CallExpr)
+	if !ok || len(call.Args) != 0 {
+		return false
+	}
+	fo := c17CalleeFunc(f, call)
+	if fo == nil || fo.Pkg() != f.Pkg.Types {
+		return false
+	}
+	fd := declOf(f.Pkg, fo)
+	if fd == nil {
+		return false
+	}
+	g := funcOf(f.Pkg, fd)
+	// the fresh Once: a local of type sync.Once / *sync.Once defined in the body
+	isOnceT := func(t types.Type) bool {
+		return t != nil && (t.String() == "sync.Once" || t.String() == "*sync.Once")
+	}
+	// fresh: new(sync.Once), &sync.Once{}, sync.Once{} — not an alias of a Once that lives elsewhere
+	isFresh := func(v ast.Expr) bool {
+		v = ast.Unparen(v)
+		if u, ok := v.(*ast.UnaryExpr); ok && u.Op == token.AND {
+			v = ast.Unparen(u.X)
+		}
+		switch x := v.(type) {
+		case *ast.CompositeLit:
+			return len(x.Elts) == 0
+		case *ast.CallExpr:
+			if b, ok := g.Callee(x).(*types.Builtin); ok && b.Name() == "new" {
+				return true
+			}
+		}
+		return false
+	}
+	var onces []types.Object
+	ast.Inspect(fd.Body, func(n ast.Node) bool {
+		if _, isLit := n.(*ast.FuncLit); isLit {
+			return false
+		}
+		switch x := n.(type) {
+		case *ast.AssignStmt:
+			if x.Tok == token.DEFINE && len(x.Lhs) == len(x.Rhs) {
+				for i, l := range x.Lhs {
+					if id, ok := l.(*ast.Ident); ok {
+						if o := g.Info.Defs[id]; o != nil && isOnceT(o.Type()) && isFresh(x.Rhs[i]) {
+							onces = append(onces, o)
+						}
+					}
+				}
+			}
+		case *ast.ValueSpec:
+			for i, id := range x.Names {
+				if o := g.Info.Defs[id]; o != nil && isOnceT(o.Type()) && (len(x.Values) == 0 || (i < len(x.Values) && isFresh(x.Values[i]))) {
+					onces = append(onces, o)
+				}
+			}
+		}
+		return true
+	})
+	if len(onces) != 1 || len(enclosingLoopsAny(fd.Body)) > 0 {
+		return false
+	}
+	nRet, okAll := 0, true
+	ast.Inspect(fd.Body, func(n ast.Node) bool {
+		if _, isLit := n.(*ast.FuncLit); isLit {
+			return false
+		}
+		rs, isRet := n.(*ast.ReturnStmt)
+		if !isRet {
+			return true
+		}
+		nRet++
+		if len(rs.Results) != 1 {
+			okAll = false
+			return true
+		}
+		lit, isLit := ast.Unparen(rs.Results[0]).(*ast.FuncLit)
+		if !isLit || len(lit.Body.List) != 1 {
+			okAll = false
+			return true
+		}
+		es, isExpr := lit.Body.List[0].(*ast.ExprStmt)
+		if !isExpr {
+			okAll = false
+			return true
+		}
+		do, isCall := es.X.(*ast.CallExpr)
+		if !isCall || len(do.Args) != 1 {
+			okAll = false
+			return true
+		}
+		co := c17CalleeFunc(g, do)
+		sel := c17CallSel(g, do)
+		if co == nil || co.FullName() != "(*sync.Once).Do" || sel == nil || c17Obj(g, sel.X) != onces[0] || !c17IsReleaseValue(g, r, do.Args[0]) {
+			okAll = false
+		}
+		return false
+	})
+	return nRet > 0 && okAll
+}
+
+// c17GuardedMode: every value ever stored in the wrapper's func() carrier is a once-guarded release
+// (c17GuardedRelease): calling the field directly, any number of times, releases at most once.
+func c17GuardedMode(c *core.Ctx, r *c17LLRoles) bool {
+	if r.back {
+		return false
+	}
+	pkg := c.Prog.Pkg(c17LL)
+	n, all := 0, true
+	for _, file := range pkg.Syntax {
+		for _, d := range file.Decls {
+			fd, ok := d.(*ast.FuncDecl)
+			if !ok || fd.Body == nil {
+				continue
+			}
+			ff := funcOf(pkg, fd)
+			ast.Inspect(fd.Body, func(nd ast.Node) bool {
+				switch x := nd.(type) {
+				case *ast.KeyValueExpr:
+					if id, ok := x.Key.(*ast.Ident); ok && ff.Info.Uses[id] == types.Object(r.relField) {
+						n++
+						if !c17GuardedRelease(ff, r, x.Value) {
+							all = false
+						}
+					}
+				case *ast.AssignStmt:
+					for i, l := range x.Lhs {
+						if c17Field(ff, l) == r.relField {
+							n++
+							if len(x.Lhs) != len(x.Rhs) || !c17GuardedRelease(ff, r, x.Rhs[i]) {
+								all = false
+							}
+						}
+					}
+				}
+				return true
+			})
+		}
+	}
+	return n > 0 && all
+}
+
 // c17Receiver returns the receiver variable of the method f wraps (nil for functions / literals).
 func c17Receiver(f *flow.Func) types.Object {
 	if fd, ok := f.Node.(*ast.FuncDecl); ok && fd.Recv != nil && len(fd.Recv.List) == 1 && len(fd.Recv.List[0].Names) == 1 {
@@ -1118,7 +1263,7 @@ func c17CarrierValue(f *flow.Func, r *c17LLRoles, e ast.Expr) bool {
 		return false
 	}
 	if !r.back {
-		return c17IsReleaseValue(f, r, e)
+		return c17IsReleaseValue(f, r, e) || c17GuardedRelease(f, r, e)
 	}
 	recv := c17Receiver(f)
 	return recv != nil && c17Obj(f, e) == recv
@@ -1488,9 +1633,10 @@ func c17Conn(c *core.Ctx) {
 		}
 		return false
 	}
+	guarded := c17GuardedMode(c, r)
 	var does []*ast.CallExpr
 	for _, call := range calls(f.Body, false) {
-		if isOnceDo(f, call) {
+		if isOnceDo(f, call) || (guarded && c17Field(f, call.Fun) == r.relField) {
 			does = append(does, call)
 		}
 	}
@@ -1541,6 +1687,9 @@ func c17Conn(c *core.Ctx) {
 		}
 		// Once.Do(func() { l.Conn.Close(); l.release() }): the order inside the literal
 		litClosesFirst := func(do *ast.CallExpr) bool {
+			if len(do.Args) == 0 {
+				return false
+			}
 			lit, ok := ast.Unparen(do.Args[0]).(*ast.FuncLit)
 			if !ok {
 				return false
@@ -1642,6 +1791,14 @@ func c17Conn(c *core.Ctx) {
 						return true
 					}
 				}
+				if guarded {
+					if sel, ok := pm[id].(*ast.SelectorExpr); ok && sel.Sel == id {
+						if call, ok := pm[sel].(*ast.CallExpr); ok && ast.Unparen(call.Fun) == ast.Expr(sel) {
+							okRefs++
+							return true
+						}
+					}
+				}
 				if r.back {
 					// a back-pointer may be read for other purposes; what must not happen outside
 					// the Once is an assignment to it or a release reached through it
@@ -1683,8 +1840,8 @@ func c17Conn(c *core.Ctx) {
 		sprintf("%d references: initialisation in Accept and Once.Do in Close only", refs),
 		"the release func is called or reassigned outside the connection's sync.Once: a connection closed twice (net/http does close repeatedly) releases two slots and the semaphore grows beyond maxConnections")
 	// the wrapper's Once must be a value field of the wrapper itself (one per connection)
-	c.Check(len(r.onceFields) >= 1, "R-C17-2", c17LL+"."+tname+"|own sync.Once", pos(c, f.Body),
-		"the wrapper has its own sync.Once field", "the wrapper has no sync.Once field of its own")
+	c.Check(len(r.onceFields) >= 1 || guarded, "R-C17-2", c17LL+"."+tname+"|own sync.Once", pos(c, f.Body),
+		"the wrapper has its own sync.Once (a field, or a fresh Once owned by the release closure it is given)", "the wrapper has no sync.Once field of its own")
 }
 
 // c17ResolveLLQuiet resolves the roles without repeating anchor errors.
